@@ -90,7 +90,7 @@ def scenarios(tier):
         ("scan_dex", SRC_DEX, ("file", "c6f9709feccf42f2d9e22057182fe185f177fb9daaa2649b4669a24f2ee7e3ba_0h_410h"), "scan", 300 if not T else big),
         ("all_small", SRC_SMALL, DATA_TEXT, "init,compile,save,load,screate,scan", 10 ** 9),
     ]
-    return S + re_scenarios(tier) + base64_scenarios(tier)
+    return S + re_scenarios(tier) + base64_scenarios(tier) + growth_scenarios(tier)
 
 
 # ------------------------------------------------------------------ regexp execution: every action path of yr_re_exec on a fresh scanner
@@ -185,6 +185,33 @@ def base64_scenarios(tier):
            'condition: any of them or ext_s contains "b" or ext_s icontains "B" or ext_s startswith "a" or ext_s iendswith "C" or ext_s iequals "ABC" '
            'or "abc" == ext_s or for any s in ("a", "b", ext_s) : ( s == "abc" ) }')
     out.append(("b64_sized_strings", src.encode("latin-1"), data, "compile", 10 ** 9))
+    return out
+
+
+# ------------------------------------------------------------------ scans that cross every lazily allocated page / growth step
+def growth_scenarios(tier):
+    """One scan makes the interpreter and the scanner allocate their SECOND page / grow their pools: more than 512 iterators of every
+    kind (the iterator notebook has room for 512 per page), more than 512 objects returned by module functions (object arena),
+    tens of thousands of matches with match data (matches notebook), hundreds of live regexp fibers (fiber pool)."""
+    out = []
+
+    def add(name, src, data, limit=10 ** 9):
+        out.append(("grow_" + name, src.encode("latin-1"), data, "scan", limit if tier != "thorough" else 10 ** 9))
+    outer = "for all i in (0..600) : ( %s )"
+    add("iter_int_range", "rule g { condition: " + outer % "for any j in (0..1) : ( j <= i )" + " }", DATA_TEXT)
+    add("iter_int_enum", "rule g { condition: " + outer % "for any j in (1, 2, 700) : ( j > i or j == 1 )" + " }", DATA_TEXT)
+    add("iter_string_set", "rule g { condition: " + outer % 'for any s in ("a", "b") : ( s == "a" )' + " }", DATA_TEXT)
+    add("iter_text_strings", 'rule g { strings: $a1 = "needle" $a2 = "zz" condition: ' + outer % "for any of ($a*) : ( $ )" + " }", DATA_TEXT)
+    add("iter_of_rules", 'rule r1 { condition: true } rule g { condition: ' + outer % "any of (r*)" + " }", DATA_TEXT)
+    add("iter_array", 'import "pe" rule g { condition: ' + outer % "for any s in pe.sections : ( s.raw_data_size >= 0 ) or true" + " }", ("file", "tiny"), 400)
+    add("iter_dict", 'import "pe" rule g { condition: ' + outer % 'for any k, v in pe.version_info : ( k != "" ) or true' + " }", ("file", "mtxex.dll"), 400)
+    add("iter_nested3", "rule g { condition: for all i in (0..30) : ( for all j in (0..30) : ( for any k in (0..1) : ( k <= j + i ) ) ) }", DATA_TEXT)
+    add("objects", 'import "math" import "hash" rule g { condition: for all i in (0..200) : ( math.to_string(i) != "" and math.abs(i) >= 0 and hash.crc32("ab") > 0 ) }',
+        DATA_TEXT)
+    add("matches", 'rule g { strings: $a = "ab" $b = /a[bc]/ $c = { 61 62 } condition: #a > 20000 and #b > 20000 and #c > 20000 }', b"ab " * 24000)
+    add("match_data", 'rule g { strings: $a = /x[a-z]{300,400}y/ condition: #a > 2000 }', (b"x" + b"q" * 350 + b"y ") * 2600)
+    add("fibers", 'rule g { strings: $a = /z(a|aa|aaa|aaaa)+(b|bb)+(c|cc)*d/ $b = /q(.|..|...){1,20}r/s condition: $a and $b }',
+        b"z" + b"a" * 40 + b"b" * 12 + b"ccc" + b"d zz q" + b"p" * 50 + b"r")
     return out
 
 
@@ -330,7 +357,7 @@ def explore(chk, h, tier, only=None):
     stats = {}
     tasks = []
     scs = [s for s in scenarios(tier) if not only or s[0] in only or ("re" in only and s[0].startswith("re_")) or
-           ("b64" in only and s[0].startswith("b64_"))]
+           ("b64" in only and s[0].startswith("b64_")) or ("grow" in only and s[0].startswith("grow_"))]
     bases = {}
     # baselines (k = 0): allocation count and the expected scan result
     cases = [(s[0], case_lines(s, 0, 0, 0)) for s in scs]
